@@ -30,7 +30,7 @@ type c17Range struct {
 type c17Case struct {
 	Backend string     `json:"backend"`
 	SameTx  bool       `json:"sametx"`
-	Decoy   string     `json:"decoy"` // field of a second index in the same store ("" = none)
+	Decoy   string     `json:"decoy"`  // field of a second index in the same store ("" = none)
 	Values  []cs.V     `json:"values"` // entry i has id gen.Id(i)
 	Ranges  []c17Range `json:"ranges"`
 	Reverse []bool     `json:"reverse"`
